@@ -22,7 +22,9 @@ var progress atomic.Int64
 
 func TestMain(m *testing.M) {
 	run = vk.Start("C04", "exploration")
-	run.Rule("frame sequences over {PADI,PADR,PADT, LCP cfg-req/ack/nak/term-req/echo, PAP good/bad/error, CHAP response, IPCP cfg-req (0.0.0.0 / client-chosen / with DNS / empty) and cfg-ack, IP, idle tick} x source station {A,B owners, F,G others} x session id {own, another live session's, dead} x Ethernet destination {server, broadcast, another station}, injected as Ethernet frames into the real pppoe.Server.receiveLoop on an in-memory raw socket in virtual time, against RADIUS {none, scripted accept/reject/challenge by credentials, unreachable, silent (timeout, real time)}: breadth-first from the post-PADS table (two live sessions, one dead id) with fingerprint pruning to the depth bound, plus seeded random walks of 10-60 frames with aimed handshake fragments; plus packet sequences against the stand-alone pppoe.Authenticator. non-trivial = distinct sequence whose judged part delivered a PPP session-stage frame or PADT carrying the id of a live session (the lookup and the gated handlers were reached) and on which both clauses were evaluated. Session-id counter: the same table reached after 65534 sessions (breadth-first spec and random walks whose 16-bit id counter is placed at 65531..0 after the prelude); scenarios with live sessions of A/B at ids out of {1,2,65535} (grid: every non-empty subset x 8 phase assignments over {LCP, authentication, IPCP, established}; random: 1-4 sessions at ids 65528..65535/1..6) followed by 1-12 PADRs of other stations with the counter placed at 65533..2 (grid) / 65528..6 (random), the stations then using the ids they were handed (PADT / own handshake / LCP terminate), owners probing with LCP echo and IPCP configure-request before and after; and real PADR/PADT churn of a third station taking the counter once round with sessions 1, 2 (and 65535) up. non-trivial there = distinct scenario in which a PADR of another station was answered and at least one owner session was compared across the foreign frames. Foreign source addresses: source MAC out of {the AC's own MAC, broadcast, all-zero, a group address, the owner's MAC with bit k flipped (k = 0..47), another live session's owner, third-party stations F/G} x every frame type {PADI, PADR, PADT (session id in the PPPoE header), LCP cfg-req/ack/nak/term-req/echo, PAP good/bad/error, CHAP response, IPCP cfg-req x4 / cfg-ack, IP} carrying the id of a live session x Ethernet destination {the AC, broadcast, the owner} x sessions of A and B in 16 phase pairs (grid), plus seeded random mixes over 1-3 victims with owner frames in between; the same sources also appear as letters of the breadth-first alphabet and in the random walks. non-trivial there = distinct scenario in which a foreign frame carrying a live id was taken by the receive loop (and judged per frame) and, in the grid, at least one owner session was compared across the case")
+	run.Rule("frame sequences over {PADI,PADR,PADT, LCP cfg-req/ack/nak/term-req/echo, PAP good/bad/error, CHAP response, IPCP cfg-req (0.0.0.0 / client-chosen / with DNS / empty) and cfg-ack, IP, idle tick} x source station {A,B owners, F,G others} x session id {own, another live session's, dead} x Ethernet destination {server, broadcast, another station}, injected as Ethernet frames into the real pppoe.Server.receiveLoop on an in-memory raw socket in virtual time, against RADIUS {none, scripted accept/reject/challenge by credentials, unreachable, silent (timeout, real time)}: breadth-first from the post-PADS table (two live sessions, one dead id) with fingerprint pruning to the depth bound, plus seeded random walks of 10-60 frames with aimed handshake fragments; plus packet sequences against the stand-alone pppoe.Authenticator. non-trivial = distinct sequence whose judged part delivered a PPP session-stage frame or PADT carrying the id of a live session (the lookup and the gated handlers were reached) and on which both clauses were evaluated. Session-id counter: the same table reached after 65534 sessions (breadth-first spec and random walks whose 16-bit id counter is placed at 65531..0 after the prelude); scenarios with live sessions of A/B at ids out of {1,2,65535} (grid: every non-empty subset x 8 phase assignments over {LCP, authentication, IPCP, established}; random: 1-4 sessions at ids 65528..65535/1..6) followed by 1-12 PADRs of other stations with the counter placed at 65533..2 (grid) / 65528..6 (random), the stations then using the ids they were handed (PADT / own handshake / LCP terminate), owners probing with LCP echo and IPCP configure-request before and after; and real PADR/PADT churn of a third station taking the counter once round with sessions 1, 2 (and 65535) up. non-trivial there = distinct scenario in which a PADR of another station was answered and at least one owner session was compared across the foreign frames. Foreign source addresses: source MAC out of {the AC's own MAC, broadcast, all-zero, a group address, the owner's MAC with bit k flipped (k = 0..47), another live session's owner, third-party stations F/G} x every frame type {PADI, PADR, PADT (session id in the PPPoE header), LCP cfg-req/ack/nak/term-req/echo, PAP good/bad/error, CHAP response, IPCP cfg-req x4 / cfg-ack, IP} carrying the id of a live session x Ethernet destination {the AC, broadcast, the owner} x sessions of A and B in 16 phase pairs (grid), plus seeded random mixes over 1-3 victims with owner frames in between; the same sources also appear as letters of the breadth-first alphabet and in the random walks. non-trivial there = distinct scenario in which a foreign frame carrying a live id was taken by the receive loop (and judged per frame) and, in the grid, at least one owner session was compared across the case. Composed links: 1-3 sessions sharing one real pppoe.IPPool (1, 5 or 13 usable addresses, 0-2 held by other subscribers), each assembled from the real pppoe.Authenticator (PAP or CHAP) and pppoe.IPCPStateMachine with IPCP Up() called only from the authenticator's success callback (IPCP opened at creation / in the callback / by event; Close, Down or nothing on a refused exchange), driven in virtual time with seeded sequences over {IPCP cfg-req (0.0.0.0 / client-chosen / a pool address / the address last offered / with DNS / DNS-only / empty / with compression), cfg-ack of the automaton's own request, cfg-nak, term-req, term-ack, PAP-or-CHAP good/bad/error/stale-or-truncated, +4 s / +61 s, Down, Close, Open, re-authentication challenge} with aimed openings (request before any exchange, after a refused one, after an accepted one, while a neighbour is being served), against RADIUS {none, scripted, unreachable}; every link is judged after every event. non-trivial there = distinct sequence in which an IPCP Configure-Request carrying an IP-Address option reached a pool-backed link whose exchange had not been accepted and the link was judged")
+	run.Assume("composed links: the pool is observed at the IPPoolAllocator interface (a recording pass-through around the real pppoe.IPPool): an address the automaton takes for a session is seen there")
+	run.Assume("composed links: address-less IPCP replies to a link without accepted authentication (Configure-Reject, Configure-Ack of an empty or DNS-only request, DNS suggestions; the library automaton answers Configure-Requests even in Initial/Starting) are counted, not judged: no address is assigned, suggested or acknowledged and the automaton does not move")
 	run.Assume("the harness-owned RADIUS server's log is the ground truth for 'accepted by RADIUS': each PAP/CHAP frame carries a unique user name and the server records its decision under it")
 	run.Assume("with no RADIUS client configured the code documents accept-all; the gate is then 'a PAP exchange from the owner MAC was delivered to the live session' (DESIGN 5b)")
 	run.Assume("an accepted exchange is never withdrawn by a later rejected one (the statement says 'only after ... was accepted'); establishment after a later rejection is counted, not judged")
@@ -63,6 +65,19 @@ func TestMain(m *testing.M) {
 	run.Floor("foreign_distinct_bit_positions_of_the_owners_mac_flipped", 48)
 	run.Floor("foreign_owner_sessions_compared_across_foreign_frames", 4000)
 	run.Floor("foreign_owner_probe_pairs_compared", 8000)
+	run.Floor("cases_composed_link", 2500)
+	run.Floor("composed_link_snapshots_judged_without_accepted_auth", 15000)
+	run.Floor("composed_address_requests_judged_without_accepted_auth", 2500)
+	run.Floor("composed_address_requests_judged_no-auth-attempt", 1500)
+	run.Floor("composed_address_requests_judged_auth-rejected", 400)
+	run.Floor("composed_address_requests_judged_auth-not-completed", 500)
+	run.Floor("composed_address_requests_without_accepted_auth_in_state_Initial", 1500)
+	run.Floor("composed_address_requests_without_accepted_auth_in_state_Starting", 600)
+	run.Floor("composed_address_requests_after_accepted_auth", 1500)
+	run.Floor("composed_addresses_allocated_after_accepted_auth", 1000)
+	run.Floor("composed_addresses_suggested_after_accepted_auth", 800)
+	run.Floor("composed_addresses_acknowledged_after_accepted_auth", 250)
+	run.Floor("composed_steps_on_opened_link_after_accepted_auth", 120)
 
 	var err error
 	if srvScripted, err = newRadSrv(false); err != nil {
